@@ -17,7 +17,7 @@ func init() { checks["C07"] = c07 }
 func c07(args []string) {
 	c := chk.New("C07", "exploration", args)
 	c.Build(false)
-	c.Rule("(a) mixed-cores contention workloads (max in {2,3,4,6}, multisets of task classes with cores in 1..max) with yields of up to 3 ms at slots.before_lock / slots.deposit / slots.release so that token-by-token acquisitions of different tasks interleave whenever the lock does not prevent it: must terminate (structural hang classifier, never elapsed time); (a1) one task waiting more than 10 s for the only slot; (a3) a streaming-only producer in front of a task that needs every slot, and a Concatenator between tasks with a single slot: must terminate; (a2) the same with outputs of waiting tasks appearing on disk while they wait (written by sibling tasks): must terminate with every slot given back (shadow counter 0) and every task either run or skipped; (b) rendezvous groups: k tasks with k*cores <= max and nothing else ready must all be inside their command at the same time (each announces itself and waits for k announcements; completion is the witness; on expiry the hook event log decides: a waiter blocked in the slot acquisition although free >= needed is a violation, anything else inconclusive); (b3) two workflows in one program: a task of X waiting for X's only slot must not keep Y's tasks from Y's free slots (one rendezvous group across both); (c) CoresPerTask > max must be refused by the library (exit != 0 with its own message, no command of that process), a Go-runtime deadlock report is not a refusal. distinct_nontrivial = distinct (max, cores multiset, interleaving signature) of contention runs in which >= 2 tasks overlapped their acquisitions' waiting, plus completed rendezvous groups and refusals")
+	c.Rule("(a) mixed-cores contention workloads (max in {2,3,4,6}, multisets of task classes with cores in 1..max) with yields of up to 3 ms at slots.before_lock / slots.deposit / slots.release so that token-by-token acquisitions of different tasks interleave whenever the lock does not prevent it: must terminate (structural hang classifier, never elapsed time); (a1) one task waiting more than 10 s for the only slot; (a3) a streaming-only producer in front of a task that needs every slot, and a Concatenator between tasks with a single slot: must terminate; (a2) the same with outputs of waiting tasks appearing on disk while they wait (written by sibling tasks): must terminate with every slot given back (shadow counter 0) and every task either run or skipped; (b) rendezvous groups: k tasks with k*cores <= max and nothing else ready must all be inside their command at the same time (each announces itself and waits for k announcements; completion is the witness; on expiry the hook event log decides: a waiter blocked in the slot acquisition although free >= needed is a violation, anything else inconclusive); (b3) two workflows in one program: a task of X waiting for X's only slot must not keep Y's tasks from Y's free slots (one rendezvous group across both); (d) workloads driven through the exported task API (NewTask, Execute, Done) with a core count per task that differs from the process's CoresPerTask, all tasks started at once and a last task that needs every slot: must terminate with every output finalized; (c) CoresPerTask > max must be refused by the library (exit != 0 with its own message, no command of that process), a Go-runtime deadlock report is not a refusal. distinct_nontrivial = distinct (max, cores multiset, interleaving signature) of contention runs in which >= 2 tasks overlapped their acquisitions' waiting, plus completed rendezvous groups and refusals")
 	c.Assume("head-of-line blocking behind a waiting multi-core task is legal: rendezvous groups are homogeneous and run with nothing else ready", "yields only make legal interleavings frequent (Go is preemptive)")
 	rng := c.Rand("c07")
 	type job struct {
@@ -227,6 +227,13 @@ func c07(args []string) {
 			if !refused || started > 0 {
 				c.Violation("oversize-cores-not-rejected", fmt.Sprintf("CoresPerTask > max: exit=%d returned=%v tasks of the oversize process started=%d; output: %s", res.Exit, res.Returned, started, tail(out, 500)), map[string]interface{}{"spec": j.s})
 				return
+			}
+			// "rejected at start": the oversize process never got as far as creating or receiving a task
+			for _, e := range res.Events {
+				if e.Who == "w1" && (e.Pt == "proc.task_creating" || e.Pt == "proc.task_received" || e.Pt == "proc.select") {
+					c.Violation("oversize-cores-rejected-late", fmt.Sprintf("CoresPerTask > max was refused only after the process had started working (hook point %s reached; %d commands of other processes had been started): the refusal belongs at the start of the process", e.Pt, len(ti.Starts)), map[string]interface{}{"spec": j.s, "event": e})
+					return
+				}
 			}
 			c.Count("oversize_refusals", 1)
 			c.Nontrivial("oversize|" + j.s.Name + fmt.Sprint(maxCores(j.s)))
@@ -446,5 +453,30 @@ func c07(args []string) {
 			c.Sample(map[string]interface{}{"kind": "mixed", "max": j.s.MaxTasks, "cores_mix": mix, "tasks": want, "max_simultaneously_acquiring": maxInAcq, "cfg": j.cfg})
 		}
 	})
+	// (d) the exported task API: tasks with core counts of their own, all started at once, the last one needs every slot
+	{
+		specs := taskAPISpecs(c.Rand("c07-taskapi"), c.Pick(6, 24))
+		run.Parallel(len(specs), func(i int) {
+			s := specs[i]
+			res, ov, _, ps := runTaskAPI(c, s, []int{2, 4}[i%2])
+			desc := map[string]interface{}{"task_api_workload": s}
+			if res.Hang != "" {
+				if strings.HasPrefix(res.Hang, "deadlock") {
+					c.Violation("slots-deadlock:task-api", fmt.Sprintf("tasks started through NewTask / Execute (max %d, cores %v) blocked each other forever: %s\n%s", s.Max, s.Tasks, res.Hang, clip(res.HangInfo, 800)), desc)
+				} else {
+					c.Inconclusive("task api: " + res.Hang)
+				}
+				return
+			}
+			if len(ps) > 0 {
+				for _, sig := range sigSet(ps) {
+					c.Violation(sig, strings.Join(mon.Summarize(ps, 4), "\n  "), desc)
+				}
+				return
+			}
+			c.Count("task_api_workloads_terminated", 1)
+			c.Nontrivial(fmt.Sprintf("taskapi|%d|%d|%d", s.Max, len(s.Tasks), ov))
+		})
+	}
 	c.Finish()
 }
